@@ -66,10 +66,13 @@ class Obs:
         from stepup.core.hash import FileHash
 
         self.db_files = {}
+        self.db_hashmeta = {}
         for label, det, state, hjs in con.execute(
             "SELECT label, detached, state, hash FROM node JOIN file ON file.node = node.i"
         ):
             fh = FileHash.from_json(hjs)
+            if not fh.is_unknown:
+                self.db_hashmeta[label] = (fh.mtime, fh.size, fh.inode, fh.mode)
             self.db_files[label] = (FileState(state).name, None if fh.is_unknown else fh.digest.hex(), bool(det))
         self.db_steps = {}
         for label, det, state, need, ineed, deferred, hh in con.execute(
@@ -85,6 +88,16 @@ class Obs:
             "WHERE s.kind = 'step' AND f.kind = 'file'"
         ):
             self.db_inputs.setdefault(slabel, []).append((flabel, bool(dyn)))
+        self.db_nglobs = {}
+        for slabel, regex in con.execute(
+            "SELECT s.label, nglob.regex FROM nglob JOIN node s ON s.i = nglob.node WHERE NOT s.detached"
+        ):
+            self.db_nglobs.setdefault(slabel, []).append(regex)
+        self.db_creator = {}
+        for label, kind, ckind, clabel in con.execute(
+            "SELECT n.label, n.kind, c.kind, c.label FROM node n JOIN node c ON c.i = n.creator"
+        ):
+            self.db_creator[f"{kind}:{label}"] = f"{ckind}:{clabel}"
         self.db_outputs = {}
         for slabel, flabel in con.execute(
             "SELECT s.label, f.label FROM dependency d JOIN node s ON s.i = d.source "
